@@ -7,6 +7,7 @@ import (
 	"go/token"
 	"go/types"
 	"math"
+	"strings"
 
 	"golang.org/x/tools/go/ssa"
 )
@@ -733,6 +734,16 @@ func (x *Exec) convert(st *State, v Value, from, to types.Type, pos token.Pos) V
 		inRange := And(Not(app(SBool, "f_isnan", p.T)),
 			app(SBool, "f_lt", p.T, F64Bits(math.Float64bits(9.223372036854775807e18))),
 			app(SBool, "f_le", F64Bits(math.Float64bits(-9.223372036854775808e18)), p.T))
+		if fc := x.curFunc; fc != nil && fc.contract != nil {
+			for _, ic := range fc.contract.ImplConv {
+				if strings.Contains(x.prog.sourceLine(pos), ic) {
+					r := x.freshConst(st, "implconv", SInt)
+					st.assume(Imp(inRange, Eq(r, app(SInt, "f_to_int", p.T))))
+					x.note("implementation-defined float->int conversion accepted at: " + ic)
+					return &Prim{T: r}
+				}
+			}
+		}
 		x.oblige(st, "conv", x.prog.sourceLine(pos), inRange, []string{"C13"}, pos)
 		return &Prim{T: app(SInt, "f_to_int", p.T)}
 	case fb.Info()&types.IsFloat != 0 && tb.Info()&types.IsFloat != 0:
